@@ -24,7 +24,7 @@ use crate::reloc::Reloc;
 #[derive(Clone, Debug)]
 pub enum Src { W(u8), R(u8), L { v: usize, i: usize, d: u8 } }
 #[derive(Clone, Debug)]
-pub enum Sink { Drop, Dc(u8), Forget, Push(usize), Ins(usize, usize), Lazy(usize, usize), Swap(u8), Info }
+pub enum Sink { Drop, Dc(u8), Forget, Push(usize), Ins(usize, usize), Lazy(usize, usize), Swap(u8), SwapRaw(u8), Info }
 #[derive(Clone, Copy, Debug)]
 pub enum HK { Pop, Remove, SwapRemove }
 #[derive(Clone, Copy, Debug)]
@@ -258,6 +258,20 @@ fn sink_swap<F: Family, H: AnyValueMut, T: Elem>(h: H) -> Tok {
     drop(h);
     Tok::Id(s)
 }
+/// the same exchange with a *type-erased* right operand (`AnyValueRaw` over a fresh value): both sides untyped, so the
+/// library swaps `size()` bytes of the handle
+fn sink_swap_raw<F: Family, H: AnyValueMut, T: Elem>(h: H) -> Tok {
+    let mut h = h;
+    let mut slot = RawSlot::<T>::new();
+    {
+        let mut raw = slot.raw();
+        h.swap(&mut raw);
+    }
+    let s = reg::noscope(|| slot.val.id_str());
+    drop(slot);
+    drop(h);
+    Tok::Id(s)
+}
 fn boxed_w<T: Elem>() -> BoxedVal<'static> { BoxedVal::new(AnyValueWrapper::new(T::make(reg::fresh()))) }
 fn boxed_r<T: Elem>() -> (BoxedVal<'static>, Box<dyn RawSlotDyn>) {
     let mut slot = Box::new(RawSlot::<T>::new());
@@ -318,8 +332,12 @@ macro_rules! sink_value {
             }
             Sink::Lazy(w, k) => { sink_value!(@lazy $lazy, h, *w, *k, $env); Tok::None }
             Sink::Swap(t) => dispatch_tag!($F, *t, [sink_swap], {$F, _,}, (h)),
+            Sink::SwapRaw(t) => dispatch_tag!($F, *t, [sink_swap_raw], {$F, _,}, (h)),
             Sink::Info => {
-                let toks = reg::noscope(|| vec![format!("t{}", tag_of::<$F>(h.value_typeid())), format!("s{}", h.size())]);
+                let toks = reg::noscope(|| {
+                    // what the value reports about itself has to agree with the bytes it exposes
+                    if AnyValueTypeless::as_bytes(&h).len() != h.size() || h.size() != <$F as Family>::SIZE { reg::log(reg::EV_BAD, 46, h.size() as u64, 0); }
+                    vec![format!("t{}", tag_of::<$F>(h.value_typeid())), format!("s{}", h.size())] });
                 drop(h);
                 Tok::Extra(toks)
             }
